@@ -18,6 +18,11 @@ from harness.xsdgen import TNS, XSI
 D = decimal.Decimal
 MARK = "urn:verif"
 
+def _tz(minutes):
+    import pytz
+    return pytz.FixedOffset(minutes)
+
+
 # type -> [(python native, canonical lexical form)]
 VLEAVES = {
     "string": [("hello", "hello"), ("x", "x"), ("a b", "a b"), ("0", "0"), ("héé ✓", "héé ✓"), (" ", " "), (" \n\t", " \n\t"), ("", "")],
@@ -26,17 +31,16 @@ VLEAVES = {
     "decimal": [(D("0"), "0"), (D("-1.5"), "-1.5"), (D("12345678901234567890.123"), "12345678901234567890.123")],
     "double": [(0.0, "0.0"), (1.5, "1.5"), (-2.5, "-2.5"), (float("inf"), "INF")],
     "date": [(datetime.date(2000, 1, 1), "2000-01-01"), (datetime.date(1999, 12, 31), "1999-12-31")],
-    "dateTime": [(datetime.datetime(2001, 2, 3, 4, 5, 6), "2001-02-03T04:05:06")],
+    "dateTime": [(datetime.datetime(2001, 2, 3, 4, 5, 6), "2001-02-03T04:05:06"),
+                 # zoned, with a fraction: the text ends in the offset, whose own digits must survive
+                 (datetime.datetime(2001, 2, 3, 4, 5, 6, 120000, tzinfo=_tz(60)), "2001-02-03T04:05:06.120000+01:00"),
+                 (datetime.datetime(1999, 12, 31, 23, 59, 59, 500000, tzinfo=_tz(330)), "1999-12-31T23:59:59.500000+05:30")],
     "base64Binary": [(b"\x00\xff", "AP8="), (b"hi", "aGk="), (b"", "")],
     "long": [(0, "0"), (9223372036854775807, "9223372036854775807")],
     "unsignedByte": [(0, "0"), (255, "255")],
     "anyURI": [("http://x/y?z=1", "http://x/y?z=1")],
 }
 
-
-def _tz(minutes):
-    import pytz
-    return pytz.FixedOffset(minutes)
 
 
 # g-types carry (value, tzinfo) tuples: negative and half-hour offsets are the boundary
